@@ -120,6 +120,14 @@ def _pad_alts(base, tmpl, pos, orig_ch, ch):
     unused = (6 * n) % 8
     if pos != b - 1 or n < 2 or unused == 0:
         return []
+    if base.name == "scrypt" and tmpl.startswith("$7$"):
+        # the $7$ layout writes its digest in crypt's little-endian base64: the unused bits are the last symbol's *high* bits
+        alphabet = "./0123456789ABCDEFGHIJKLMNOPQRSTUVWXYZabcdefghijklmnopqrstuvwxyz"
+        if orig_ch not in alphabet or b != len(tmpl):
+            return []
+        v = alphabet.index(orig_ch)
+        keep = (1 << (6 - unused)) - 1
+        return [ch == ord(alphabet[w]) for w in range(64) if w & keep == v & keep and w != v]
     alphabet = "ABCDEFGHIJKLMNOPQRSTUVWXYZabcdefghijklmnopqrstuvwxyz0123456789" + \
                ("./" if base.name in AB64 else "-_" if base.name == "cta_pbkdf2_sha1" else "+/")
     if orig_ch not in alphabet:
